@@ -45,12 +45,15 @@ func run(seed int64, n int, dir string, _ []string) {
 	dml.AttrCorpus(g, o, root)
 	// corpus: first access through a table function with non-default options, then plain names in failing / succeeding statements
 	dml.LoadFuncCorpus(g, o, root)
+	// corpus: statements nested through failing user-defined functions; SELECTs failing in every clause position
+	dml.NestedFailCorpus(g, o, root)
 
 	stmts := 0
 	scanned := false
 	for seq := 0; stmts < n; seq++ {
 		r := dml.NewSequence(g, o, root, seq, true, 400)
 		r.OnlyFailureLaws = true
+		r.SessionSetup(fmt.Sprintf("s%d", seq))
 		r.Wraps = 20
 		// every second sequence runs with the discarded value objects poisoned (lib/value, build tag verif)
 		r.Poison = dml.SetPoison(seq%2 == 1) && seq%2 == 1
